@@ -481,6 +481,93 @@ def main() -> int:
                 r1 = _run(getattr(i1["P"](list(xs)), name), args)
                 if r0 != r1:
                     bad.append(f"inliner differential: P({xs}).{name}{args}: original {r0}, inlined {r1}")
+    # helper objects and records: dissolved / scalarised program behaves like the original
+    osrc = textwrap.dedent('''
+        import typing
+
+        class _Deadline:
+            __slots__ = ("expiry", "at")
+            def __init__(self, expiry):
+                self.expiry = expiry
+                self.at = None
+            def clear(self):
+                self.at = None
+            def restart(self, now):
+                if self.expiry is not None:
+                    self.at = now + self.expiry
+            def passed(self, now):
+                return self.at is not None and now > self.at
+
+        class Conn:
+            def __init__(self, expiry):
+                self._d = _Deadline(expiry)
+                self.n = 0
+            def use(self):
+                d = self._d
+                d.clear()
+                self.n += 1
+            def idle(self, now):
+                self._d.restart(now)
+            def expired(self, now):
+                return self._d.passed(now)
+
+        class Head(typing.NamedTuple):
+            status: int
+            reason: bytes = b"OK"
+            def is_ok(self):
+                return 200 <= self.status < 300
+
+        def make(s) -> Head:
+            if s:
+                return Head(s)
+            return Head(status=500, reason=b"ERR")
+
+        def use(s):
+            h = make(s)
+            return (h.status, h.reason, h.is_ok())
+
+        def use2(s):
+            h = Head(s, b"x")
+            return h.status + len(h.reason)
+
+        def scenario(expiry, steps):
+            c = Conn(expiry)
+            out = []
+            for op, t in steps:
+                if op == "use":
+                    c.use()
+                elif op == "idle":
+                    c.idle(t)
+                out.append(c.expired(t + 1))
+            return (out, c.n)
+    ''')
+    o0: dict = {}
+    exec(compile(osrc, "<object sample>", "exec"), o0)  # noqa: S102
+    ot = ast.parse(osrc)
+    known_f = {"Conn.__init__", "Conn.use", "Conn.idle", "Conn.expired", "make", "use", "use2", "scenario"}
+    onotes = inline.inline_new_helpers(ot, known_f)
+    onotes += [n for ns in records.dissolve_objects({"m.py": ot}, {"m.py": {"Conn"}}).values() for n in ns]
+    onotes += [n for ns in records.scalarise({"m.py": ot}, {"m.py": {"Conn"}}).values() for n in ns]
+    canon.canonicalise(ot, set(), set())
+    ast.fix_missing_locations(ot)
+    o1: dict = {}
+    exec(compile(ot, "<dissolved sample>", "exec"), o1)  # noqa: S102
+    otxt = ast.unparse(ot)
+    if "_Deadline(" in otxt.split("class Conn")[1]:
+        bad.append("objects: the helper object of Conn was not dissolved")
+    nobj = 0
+    for expiry in (None, 5):
+        for steps in ([], [("idle", 0)], [("idle", 0), ("use", 3), ("idle", 10), ("noop", 20)], [("use", 1), ("idle", 2), ("noop", 6), ("noop", 8)]):
+            nobj += 1
+            r0, r1 = _run(o0["scenario"], (expiry, steps)), _run(o1["scenario"], (expiry, steps))
+            if r0 != r1:
+                bad.append(f"objects differential: scenario({expiry}, {steps}): original {r0}, dissolved {r1}")
+    for fn_ in ("use", "use2"):
+        for s_ in (0, 200, 404):
+            nobj += 1
+            r0, r1 = _run(o0[fn_], (s_,)), _run(o1[fn_], (s_,))
+            if r0 != r1 and not (r0[0] == "ok" and r1[0] == "ok" and tuple(r0[1]) == tuple(r1[1])):
+                bad.append(f"records differential: {fn_}({s_}): original {r0}, scalarised {r1}")
     # inliner: a helper's returned local must not be merged with a caller variable that a handler reads (the C06-e shape)
     src2 = ("class K:\n    def _open(self):\n        stream = self.connect()\n        self.negotiate(stream)\n        return stream\n"
             "    def run(self):\n        stream = None\n        try:\n            stream = self._open()\n            self.use(stream)\n        except BaseException:\n"
@@ -503,7 +590,7 @@ def main() -> int:
     if "h(r)" not in txt3 or "r = R(n=k)" not in txt3:
         bad.append("records: an escaping record was scalarised")
     print(f"normalisation self-test: {len(GRID)} sample functions ({changed} rewritten by canon), {sum(len(g(ns0['Box'])) for g in GRID.values())} differential runs, "
-          f"{len(REFUSALS)} refusals, {nin} inliner differential runs ({len(inotes)} helpers expanded), 3 inliner / record cases: {'OK' if not bad else 'FAILED'}")
+          f"{len(REFUSALS)} refusals, {nin} inliner differential runs ({len(inotes)} helpers expanded), {nobj} object / record differential runs ({len(onotes)} steps), 3 inliner / record cases: {'OK' if not bad else 'FAILED'}")
     for b in bad:
         print("  " + b)
     return 1 if bad else 0
